@@ -121,12 +121,17 @@ func init() {
 	reg(&PropDef{
 		ID:    "C11",
 		Title: "Slashing takes exactly the category's share of the disputed report's stake",
-		Funcs: fcNP("x/dispute/keeper.Keeper.GetDisputeFee", "x/dispute/keeper.GetSlashPercentageAndJailDuration", "x/reporter/keeper.Keeper.deductUnbondingDelegation", "x/reporter/keeper.Keeper.deductFromdelegation", "x/reporter/keeper.Keeper.undelegate"),
+		Funcs: append(fcNP("x/dispute/keeper.Keeper.GetDisputeFee", "x/dispute/keeper.GetSlashPercentageAndJailDuration", "x/reporter/keeper.Keeper.deductUnbondingDelegation", "x/reporter/keeper.Keeper.deductFromdelegation", "x/reporter/keeper.Keeper.undelegate"),
+			fc("x/reporter/keeper.Keeper.EscrowReporterStake", "x/dispute/keeper.Keeper.SlashAndJailReporter", "x/dispute/keeper.msgServer.ProposeDispute")...),
 		Assumptions: []string{
-			"assumed contract on the staking keeper (x/reporter/types.StakingKeeper): unbonding entries returned by GetUnbondingDelegation have non-negative balances; Set/RemoveUnbondingDelegation do not change bank balances, the validator set or total bonded tokens",
+			"assumed contract on the staking keeper (x/reporter/types.StakingKeeper): unbonding entries returned by GetUnbondingDelegation have non-negative balances; Set/RemoveUnbondingDelegation do not change bank balances, the validator set or total bonded tokens; GetRedelegationsFromSrcValidator only reads",
+			"EscrowReporterStake is entered with a stake record whose entries are present and non-negative, a slash amount >= 0 and a stated power >= 1",
 		},
 		NotDecided: []string{
-			"escrow apportioning over selectors and redelegations (EscrowReporterStake, undelegate, deductFromdelegation), slash-at-most-once, evidence equals the stored micro-report: not yet under contract",
+			"that each backer's share is its proportion of the stake that backed the report (to within one unit): the code divides by power*10^6, not by the recorded total (open finding C11-negative-last-share); decided instead: the recorded parts add up to the slash amount exactly and the record's total is the slash amount",
+			"that the second undelegate (redelegation destination) covers what the first could not: its remainder is discarded by the code and the recorded amount is not reduced",
+			"slash-at-most-once per dispute, jailing durations reaching the reporter module, AddFeeToDispute completing a fee (same slashing path, not under contract)",
+			"stored validators keep positive delegator shares across Unbond (precondition of the second undelegate call: undecided)",
 		},
 	})
 	reg(&PropDef{
@@ -202,13 +207,13 @@ func init() {
 	reg(&PropDef{
 		ID:    "C13",
 		Title: "Dispute settlement pays out exactly what was paid in, once",
-		Funcs: fcNP("x/dispute/keeper.Keeper.ExecuteVote", "x/dispute/keeper.Keeper.ReturnSlashedTokens", "x/dispute/keeper.Keeper.RefundDisputeFee", "x/dispute/keeper.msgServer.WithdrawFeeRefund", "x/dispute/keeper.Keeper.ClaimReward"),
+		Funcs: fcNP("x/dispute/keeper.Keeper.ExecuteVote", "x/dispute/keeper.Keeper.ReturnSlashedTokens", "x/dispute/keeper.Keeper.RefundDisputeFee", "x/dispute/keeper.msgServer.WithdrawFeeRefund", "x/dispute/keeper.Keeper.ClaimReward", "x/dispute/keeper.Keeper.CalculateReward", "x/dispute/keeper.msgServer.AddFeeToDispute"),
 		Assumptions: []string{
 			"trusted frames for the reporter keeper's ReturnSlashedTokens, FeeRefund, AddAmountToStake (they write reporter/staking state and the two staking pool accounts only); their effect on the stake ledger is C05 and not claimed",
 			"stored dispute records are well formed (FeeTotal > 0, SlashAmount >= BurnAmount >= 0, vote result is a defined enum value), Dust is below one loya, the payer is not the dispute module account",
 		},
 		NotDecided: []string{
-			"that all pay-outs together equal fees paid plus escrowed stake over a whole dispute (needs the sum over all payers and voters); the amount of a voter reward (CalculateReward is a trusted read; its non-negativity is not assumed); repeated payments by the same payer and payers of later rounds (suspected defects, no check yet)",
+			"that all pay-outs together equal fees paid plus escrowed stake over a whole dispute (needs the sum over all payers and voters); the amount of a voter reward (CalculateReward: decided are that it only reads and that a tipper's tips are read as of the block of a round of the dispute; the pro-rata formula over the three groups is not); repeated payments by the same payer and payers of later rounds (suspected defects, no check yet)",
 			"RewardReporterBondToFeePayers' pro-rata amount",
 		},
 	})
@@ -257,7 +262,7 @@ func init() {
 		Funcs: fcNP("x/oracle/keeper.Keeper.WeightedMedian", "x/oracle/keeper.Keeper.WeightedMode", "x/oracle/keeper.Keeper.SetValue",
 			"x/oracle/keeper.Keeper.RotateQueries", "x/oracle/keeper.Keeper.GetCurrentQueryInCycleList", "x/oracle/keeper.Keeper.GetCyclelist", "x/oracle/keeper.Keeper.InitCycleListQuery",
 			"x/oracle/keeper.msgServer.UpdateCyclelist", "x/oracle/keeper.Keeper.ClearOldqueries", "x/oracle/keeper.Keeper.SetAggregatedReport", "x/oracle.EndBlocker", "x/dispute/keeper.Keeper.UpdateDispute",
-			"x/dispute.CheckOpenDisputesForExpiration", "x/dispute.CheckClosedDisputesForExecution",
+			"x/dispute.CheckOpenDisputesForExpiration", "x/dispute.CheckClosedDisputesForExecution", "x/dispute/keeper.Keeper.CloseDispute", "x/dispute/keeper.Keeper.AddDisputeRound",
 			"x/mint.BeginBlocker", "x/mint.MintBlockProvision", "x/mint.SetPreviousBlockTime", "x/mint/keeper.Keeper.SendInflationaryRewards", "x/mint/keeper.Keeper.MintCoins", "x/mint/types.Minter.CalculateBlockProvision"),
 		Assumptions: []string{
 			"per-function: each block-processing function is shown not to fail or panic under a stated store invariant (its requires), and the writers under contract are shown to establish that invariant; the induction over all handlers and blocks is not carried",
@@ -312,7 +317,9 @@ func init() {
 		Funcs: fcNP("x/bridge/keeper.Keeper.SetBridgeValidatorParams", "x/bridge/keeper.Keeper.CalculateValidatorSetCheckpoint",
 			"x/bridge/keeper.Keeper.EncodeOracleAttestationData", "x/bridge/keeper.Keeper.GetDepositQueryId", "x/bridge/keeper.Keeper.GetWithdrawalQueryId",
 			"x/bridge/keeper.Keeper.GetWithdrawalReportValue"),
+		Sweeps: []string{"sol_encodings"},
 		Assumptions: []string{
+			"the Solidity side is compared textually: each abi.encode / abi.decode site of BlobstreamO.sol, Constants.sol and TokenBridge.sol that a Go encoder must agree with is pinned (comments and whitespace removed) to the field list the Go contract states; the correspondence pin <-> Go clause is by construction of the contract text, not derived",
 			"total validator power below 2^63 (the threshold is computed as total*2/3 in uint64)",
 			"go-ethereum's abi.Arguments.Pack is an uninterpreted function abi_pack(type names, values) of the list of Solidity type names (abi.NewType) and the list of packed values; crypto.Keccak256 is an uninterpreted function; hex.DecodeString yields hexdec(s); copying into a fresh [32]byte yields pad(content, 32). The contracts therefore decide that the chain packs exactly the fields, in the order and with the Solidity types the bridge contracts use (abi.encode(...) in the property text), not the byte layout abi.encode itself produces (go-ethereum trusted to implement the ABI specification)",
 			"z := new(big.Int); z.SetUint64(x) rebinds z (same basic block); other *big.Int receivers keep result-only semantics",
